@@ -1938,7 +1938,18 @@ class Exec:
                 elif isinstance(A[0], VInt):
                     c = A[0].conc()
                     if c is None:
-                        raise ToolLimit('bytearray(n) symbolic')
+                        # bytes(n): n zero octets; ValueError for a negative count
+                        nz = A[0].z
+                        res = []
+                        for s2, ok in self.fork(st, nz >= 0):
+                            if not ok:
+                                res.append((s2, Raise('ValueError', getattr(n, 'lineno', None))))
+                                continue
+                            zz = fresh('zeros', BYTES)
+                            k = fresh('k')
+                            s2.facts += [z3.Length(zz) == nz, z3.ForAll([k], z3.Implies(z3.And(k >= 0, k < nz), zz[k] == 0))]
+                            res.append((s2, self.new_buf(s2, zz) if name == 'bytearray' else VBytes(zz)))
+                        return res
                     z = self.lit_bytes(bytes(c))
                 else:
                     raise ToolLimit('bytes(%s)' % type(A[0]).__name__)
@@ -3245,6 +3256,28 @@ class Exec:
                             out.append((s2, Next()))
                 else:
                     raise ToolLimit('item assignment on %s' % type(o).__name__)
+            return out
+        if isinstance(tgt, ast.Subscript) and isinstance(tgt.slice, ast.Slice) and tgt.slice.step is None:
+            # buf[a:b] = octets (also buf[:] = ...): the slice is replaced, in place
+            out = []
+            parts = [tgt.value] + [x for x in (tgt.slice.lower, tgt.slice.upper) if x is not None]
+            for s, vs in self.ev_many(parts, env, st, ctx):
+                if isinstance(vs, Raise):
+                    out.append((s, vs))
+                    continue
+                o = vs[0]
+                if not isinstance(o, VBuf) or not isinstance(v, (VBytes, VBuf)):
+                    raise ToolLimit('slice assignment on %s' % type(o).__name__)
+                S = s.heap[o.cell]
+                L = z3.Length(S)
+                rest = list(vs[1:])
+                lo = self.as_int(rest.pop(0)) if tgt.slice.lower is not None else z3.IntVal(0)
+                hi = self.as_int(rest.pop(0)) if tgt.slice.upper is not None else L
+                clamp = lambda x: z3.If(x < 0, z3.If(x + L < 0, 0, x + L), z3.If(x > L, L, x))
+                a, b = clamp(lo), clamp(hi)
+                b = z3.If(b < a, a, b)
+                s.heap[o.cell] = z3.Concat(z3.Extract(S, 0, a), self.seq(v, s), z3.Extract(S, b, L - b))
+                out.append((s, Next()))
             return out
         raise ToolLimit('assign target %s' % type(tgt).__name__)
 
